@@ -336,6 +336,17 @@ def check(ctx, rep):
         atoms = p.branch_atoms()
         inflight = [tv for t, tv in atoms if t == ("attr", v, inflight_field)]
         rep.ob("R-NEXT", "selection never returns a job with an attempt in flight", inflight == [False], "returned %s with %s tested %s" % (fmt(v), inflight_field, inflight), where_of(sel), trace_of(p))
+        # a job returned from inside the walk ("taken at once") must be stop-flagged or overdue on a clock reading
+        lv = [e for e in p.evs("loop") if e.fn is sel]
+        walking = bool(lv) and not any(e.d[0] == "exit" for e in lv)
+        if walking:
+            flagged = any(tv and isinstance(t, tuple) and t[0] == "attr" and t[1] == v and t[2] not in (inflight_field, R["when"]) for t, tv in atoms)
+            due = False
+            for t, tv in atoms:
+                n = norm_cmp(t, tv)
+                if n and n[0] == ("attr", v, R["when"]) and n[1] in ("<=", "<") and is_clock(n[2]):
+                    due = True
+            rep.ob("R-NEXT", "selection takes a job at once only if it is stop-flagged or overdue", flagged or due, "returns %s from inside the walk without having established that it is stop-flagged or that its due time has passed (the loop would then sleep on a later job while an earlier one is due)" % fmt(v), where_of(sel), trace_of(p))
         for t, tv in atoms:
             n = norm_cmp(t, tv)
             if n and n[0][0] == "attr" and n[2][0] == "attr" and n[0][2] == R["when"] and n[2][2] == R["when"] and n[0][1] != n[2][1]:
